@@ -48,6 +48,21 @@ CHECKS = {
             "8*eps32*max(1,|x|max) of float64 stable formulas (scipy.special) and closed-form gradients.",
             "Trusts scipy.special expit/softmax/log_softmax and numpy expm1/log1p as exact to double rounding.",
             "DESIGN.md 4/C09"),
+    "C10": ("property-based invariant + metamorphic testing (Hypothesis) over both op catalogues",
+            "Generated-input search over every tensor and nn op x {float32,float64} x scalar/tensor operands x "
+            "result ranks incl. 0-d x upstream gradient of either dtype x (result as root | result retained as an "
+            "interior node): dtype/shape predicates on results, leaf/root/retained gradients, and float32-vs-float64 "
+            "agreement of the same call.",
+            "Assumes operands of one call share a dtype; reference shapes come from the catalogue's NumPy models.",
+            "DESIGN.md 4/C10"),
+    "C11": ("property-based invariant testing (Hypothesis): byte snapshots around forward/backward with aliased operands",
+            "Generated-input search over every op/layer/loss with operands laid out independently, as views of one "
+            "shared buffer, aliasing the same memory, or reused; byte-level snapshots of operands, targets, the "
+            "caller's upstream gradient and a bystander tensor are compared before/after forward, backward and a "
+            "second backward through the first root; forward repetition must be bit-identical; clone/detach storage "
+            "independence; documented in-place calls touch only what they document.",
+            "Assumes Tensor(ndarray) wraps the array without copying (checked per case, otherwise the case is skipped).",
+            "DESIGN.md 4/C11"),
     "C16": ("property-based differential + metamorphic testing (Hypothesis) with an enumerated geometry grid",
             "Generated-input search: the three im2col and three col2im implementations, extract_windows and "
             "place_windows are compared bit-wise against a brute-force loop reference, and the adjoint and "
